@@ -29,3 +29,4 @@ func Or(a, b bool) bool
 func And(a, b bool) bool
 func Implies(a, b bool) bool
 func Ite64(c bool, a, b uint64) uint64
+func MakeCap(n int)
